@@ -598,6 +598,7 @@ class Ctx:
     def sub(self, ret=None, cont=None, record=None):
         return Ctx(ret or self.ret, cont or self.cont, self.records + ([record] if record is not None else []))
 
+RUST_TYPE_RULES = []          # extended from the tables: (regex over the whitespace-free Rust type, value type)
 def rust_type(txt, selfty):
     """Rust type text (as normalised by Parser.ty) -> value type"""
     if txt is None: return "unit"
@@ -612,6 +613,8 @@ def rust_type(txt, selfty):
     if re.match(r"^(Vector|Vec)<(T|f64)>$", t) or t in ("Vec64",): return "vec"
     if re.match(r"^Matrix<(T|f64)>$", t) or t in ("Mat64",): return "mat"
     if re.match(r"^Polynomial<(T|f64)>$", t): return "poly"
+    for pat, ty in RUST_TYPE_RULES:
+        if re.match(pat, t): return ty
     m = re.match(r"^\((.*)\)$", t)
     if m and m.group(1) == "": return "unit"
     if m:
@@ -646,6 +649,9 @@ class Translator:
     """one function at a time.  `tables` (driver/r2c_table.py): METHODS, PATHS, BINOPS, UNOPS, FIELDS, CONSTS."""
     def __init__(self, tables, spec):
         self.tb, self.spec, self.n, self.tuple_parts = tables, spec, 0, {}
+        GTYPE.update(getattr(tables, "GTYPES", {}))
+        for r in getattr(tables, "RUST_TYPES", []):
+            if r not in RUST_TYPE_RULES: RUST_TYPE_RULES.append(r)
         self.what = spec["name"]
     def bad(self, msg):
         raise TieBroken("rust2coq: %s: %s" % (self.what, msg))
@@ -1148,6 +1154,17 @@ class Translator:
         # compound assignment: place first (read), then the right operand, then the write
         bop = op[0]
         p = strip(place)
+        if p[0] in ("var", "field"):
+            lt = self.place_type(p, env)
+            Bp = []
+            rt = self.ex(rhs, env, Bp)[1]
+            ent = self.tb.ASSIGNOPS.get((op, lt, rt))
+            if ent is not None:                              # an overloaded `op=` between non-scalar operands
+                cur, _ = self.ex(p, env, B)
+                r, _ = self.ex(rhs, env, B)
+                t, ty = self.apply_fn(ent, [cur, r], B)
+                self.assign_place(p, t, ty, env, B)
+                return wrap(B, rest(env))
         if p[0] == "var":
             e2 = ("bin", bop, p, rhs)
             t, ty = self.ex(e2, env, B)
@@ -1309,8 +1326,6 @@ class Translator:
                     if depth == 0: toks = toks[i + 1:]; break
         if "where" in toks: toks = toks[:toks.index("where")]
         h = "".join(toks)
-        if "Vector<" in h: return "vec"
-        if "Matrix<" in h: return "mat"
-        if "Polynomial<" in h: return "poly"
-        if h.strip("&") in ("f64",): return "elem"
+        ty = rust_type(h, None)
+        if isinstance(ty, str): return ty
         self.bad("cannot infer the Self type from `impl %s`" % header)
